@@ -20,6 +20,7 @@ type ObsPP struct {
 	OrderV  int
 
 	FailBefore, FailAfter, FailEarly, FailInst string // component name on which the callback fails
+	FailProps, FailBeforeInst                  string
 }
 
 func (o *ObsPP) Naming() string { return "obs-pp-" + o.Tag }
@@ -48,6 +49,10 @@ func (o *ObsPP) PostProcessAfterInitialization(c any, name string) (any, error) 
 }
 
 func (o *ObsPP) PostProcessBeforeInstantiation(m *component_definition.Meta, name string) (any, error) {
+	if o.FailBeforeInst != "" && o.FailBeforeInst == name {
+		o.Log.Add(zoo.Event{Kind: "beforeinst", ID: -1, Name: name, Note: o.Tag})
+		return nil, zoo.ErrInjected
+	}
 	return nil, nil
 }
 
@@ -63,10 +68,14 @@ func (o *ObsPP) PostProcessAfterInstantiation(c any, name string) (bool, error) 
 	if o.FailInst != "" && o.FailInst == name {
 		return false, zoo.ErrInjected
 	}
-	return false, nil
+	return o.FailProps != "" && o.FailProps == name, nil
 }
 
 func (o *ObsPP) PostProcessProperties(p []*component_definition.Property, c any, name string) ([]*component_definition.Property, error) {
+	if o.FailProps != "" && o.FailProps == name {
+		o.Log.Add(zoo.Event{Kind: "props", ID: o.id(c), Name: name, Note: o.Tag})
+		return nil, zoo.ErrInjected
+	}
 	return nil, nil
 }
 
